@@ -10,6 +10,7 @@
 package simrt
 
 import (
+	"runtime"
 	"reflect"
 	"sync"
 	"sync/atomic"
@@ -26,6 +27,8 @@ type Runtime interface {
 	TryLock(l TryLocker, site string) bool
 	RLock(l *sync.RWMutex, site string)
 	RUnlock(l *sync.RWMutex)
+	CondWait(c *sync.Cond, site string)
+	CondSignal(c *sync.Cond, all bool)
 	Send(ch reflect.Value, v reflect.Value, site string)
 	Recv(ch reflect.Value, site string) (reflect.Value, bool)
 	Close(ch reflect.Value)
@@ -325,3 +328,56 @@ func Now() time.Time {
 
 // Since replaces time.Since.
 func Since(t time.Time) time.Duration { return Now().Sub(t) }
+
+// Procs, when > 0, is the number of processors the simulated program sees
+// (rule R11); engines draw it per case.
+var Procs int
+
+// GOMAXPROCS replaces runtime.GOMAXPROCS: a query (n < 1) answers with the
+// simulated number of processors, a setting changes it.
+func GOMAXPROCS(n int) int {
+	if Procs <= 0 {
+		return runtime.GOMAXPROCS(n)
+	}
+	prev := Procs
+	if n > 0 {
+		Procs = n
+	}
+	return prev
+}
+
+// NumCPU replaces runtime.NumCPU.
+func NumCPU() int {
+	if Procs <= 0 {
+		return runtime.NumCPU()
+	}
+	return Procs
+}
+
+// CondWait replaces (*sync.Cond).Wait: the lock is released, the task waits
+// to be signalled and takes the lock again - all decided by the simulator.
+func CondWait(c *sync.Cond, site string) {
+	if rt == nil {
+		c.Wait()
+		return
+	}
+	rt.CondWait(c, site)
+}
+
+// CondSignal replaces (*sync.Cond).Signal.
+func CondSignal(c *sync.Cond) {
+	if rt == nil {
+		c.Signal()
+		return
+	}
+	rt.CondSignal(c, false)
+}
+
+// CondBroadcast replaces (*sync.Cond).Broadcast.
+func CondBroadcast(c *sync.Cond) {
+	if rt == nil {
+		c.Broadcast()
+		return
+	}
+	rt.CondSignal(c, true)
+}
